@@ -444,7 +444,8 @@ class Poly(meta(metaclass=PolyMeta)):
                                1 if v == 1 else v ** other) # Avoid casting
                               for k, v in iteritems(self._data)),
                   zero=self.zero)
-    return reduce(operator.mul, [self.copy()] * (other - 1) + [self])
+    copies = [self.copy() for unused in xrange(other - 1)] # Independent ones
+    return reduce(operator.mul, copies + [self])
 
   def __truediv__(self, other):
     if isinstance(other, Poly):
